@@ -1551,9 +1551,16 @@ func resolveVarPending(computed map[string]pr.RawTokens, token Token, pending ma
 	}
 
 	_, args := pa.ParseFunction(token)
-	// first arg is name, next args are default value
-	varNameToken, default_ := args[0], args[1:]
-	variableName := varNameToken.(pa.Ident).Value
+	// first arg is name, what follows the first comma is the default value
+	// (which may itself contain commas)
+	variableName := args[0].(pa.Ident).Value
+	var default_ []Token
+	for i, argument := range fn.Arguments {
+		if pa.IsLiteral(argument, ",") {
+			default_ = pa.RemoveWhitespace(fn.Arguments[i+1:])
+			break
+		}
+	}
 	if pending[variableName] { // endless recursion
 		return []Token{}
 	}
